@@ -20,25 +20,34 @@ def extra(run, cases, oracle, tier):
         if W is None:
             continue
         inv = {}
+        seen = {}
         for tetrad in ("quasi-Kinnersley", "other"):
             vopt = {"vacuum": True, "_noT": True} if c.get("vacuum") else {}
-            rel, idx, F = GR.build_instance(c, oracle[ci], 4, opts=dict(vopt, tetrad=tetrad))
-            at = (...,) + idx
-            l, k, m, mb = [v[at] for v in rel.null_vector_base()]
-            e = [v[at] for v in rel.tetrad_base()]
-            psis = rel["Weyl_Psi"]
-            want = [np.einsum("abcd,a,b,c,d", W, k, m, k, m), np.einsum("abcd,a,b,c,d", W, l, k, m, k),
-                    np.einsum("abcd,a,b,c,d", W, k, m, mb, l), np.einsum("abcd,a,b,c,d", W, k, l, mb, l),
-                    np.einsum("abcd,a,b,c,d", W, l, mb, l, mb)]
-            scale = max(1.0, np.abs(W).max())
+            def psi_error(refine, tetrad=tetrad, vopt=vopt):
+                rel, idx, F = GR.build_instance(c, oracle[ci], 4, opts=dict(vopt, tetrad=tetrad), refine=refine)
+                at = (...,) + idx
+                l, k, m, mb = [v[at] for v in rel.null_vector_base()]
+                psis = rel["Weyl_Psi"]
+                want = [np.einsum("abcd,a,b,c,d", W, k, m, k, m), np.einsum("abcd,a,b,c,d", W, l, k, m, k),
+                        np.einsum("abcd,a,b,c,d", W, k, m, mb, l), np.einsum("abcd,a,b,c,d", W, k, l, mb, l),
+                        np.einsum("abcd,a,b,c,d", W, l, mb, l, mb)]
+                errs = [abs(psis[n][idx] - want[n]) for n in range(5)]
+                n = int(np.argmax(errs))
+                iv = rel["Weyl_invariants"]
+                seen[tetrad, refine] = dict(rel=rel, idx=idx, n=n, got=psis[n][idx], want=want[n], inv=(iv["I"][idx], iv["J"][idx]))
+                return errs[n] / max(1.0, np.abs(W).max())
+
             run.count((c["cls"], c["seed"], tetrad, "psi"))
-            for n in range(5):
-                got = psis[n][idx]
-                if abs(got - want[n]) > 5e-5 * scale:
-                    run.violation({"clause": "PsiAreTetradComponents", "psi": n, "tetrad": tetrad},
-                                  f"Weyl_Psi[{n}] = {got!r} on the {c['cls']} spacetime (seed {c['seed']}, tetrad {tetrad}); the Weyl tensor "
-                                  f"contracted with the returned null tetrad gives {want[n]!r}", {"class": c["cls"], "seed": c["seed"]})
-                    break
+            ok, _ = GR.shrinks_under_refinement(psi_error, 4, 5e-5)
+            s1 = seen[tetrad, 1]
+            if not ok:
+                run.violation({"clause": "PsiAreTetradComponents", "psi": s1["n"], "tetrad": tetrad},
+                              f"Weyl_Psi[{s1['n']}] = {s1['got']!r} on the {c['cls']} spacetime (seed {c['seed']}, tetrad {tetrad}); the Weyl tensor "
+                              f"contracted with the returned null tetrad gives {s1['want']!r} (and the difference does not shrink like "
+                              f"discretisation error at half the spacing)", {"class": c["cls"], "seed": c["seed"]})
+            rel, idx = s1["rel"], s1["idx"]
+            at = (...,) + idx
+            e = [v[at] for v in rel.tetrad_base()]
             g4 = rel["gdown4"][at]
             gam = rel["gammadown3"][at]
             if tetrad == "quasi-Kinnersley":
@@ -53,8 +62,7 @@ def extra(run, cases, oracle, tier):
                     run.violation({"clause": "TetradOrthonormal", "tetrad": tetrad},
                                   f"fluid-adapted tetrad is not orthonormal for g on the {c['cls']} spacetime: g(e_a, e_b) = {gm.round(6).tolist()}",
                                   {"class": c["cls"], "seed": c["seed"]})
-            iv = rel["Weyl_invariants"]
-            inv[tetrad] = (iv["I"][idx], iv["J"][idx])
+            inv[tetrad] = s1["inv"]
             run.traces += 1
             if tetrad == "other":
                 # fluid moving with respect to the slicing: the fluid-adapted tetrad must still be orthonormal for g
@@ -72,11 +80,23 @@ def extra(run, cases, oracle, tier):
                                   {"class": c["cls"], "seed": c["seed"]})
         if c["cls"] in ("wave-zone", "minkowski-like"):
             (i1, j1), (i2, j2) = inv["quasi-Kinnersley"], inv["other"]
-            sc = max(1.0, abs(i1), abs(j1))
+
+            def ij_error(refine):
+                for t in ("quasi-Kinnersley", "other"):
+                    if (t, refine) not in seen:
+                        vopt = {"vacuum": True, "_noT": True} if c.get("vacuum") else {}
+                        r2, x2, _ = GR.build_instance(c, oracle[ci], 4, opts=dict(vopt, tetrad=t), refine=refine)
+                        iv = r2["Weyl_invariants"]
+                        seen[t, refine] = dict(inv=(iv["I"][x2], iv["J"][x2]))
+                (a1, b1), (a2, b2) = seen["quasi-Kinnersley", refine]["inv"], seen["other", refine]["inv"]
+                return max(abs(a1 - a2), abs(b1 - b2)) / max(1.0, abs(a1), abs(b1))
+
             run.count((c["cls"], c["seed"], "IJ"))
-            if abs(i1 - i2) > 1e-4 * sc or abs(j1 - j2) > 1e-4 * sc:
+            ok, _ = GR.shrinks_under_refinement(ij_error, 4, 1e-4)
+            if not ok:
                 run.violation({"clause": "InvariantsTetradIndependent"},
-                              f"Weyl invariants depend on the tetrad on the {c['cls']} spacetime: I = {i1} vs {i2}, J = {j1} vs {j2}",
+                              f"Weyl invariants depend on the tetrad on the {c['cls']} spacetime: I = {i1} vs {i2}, J = {j1} vs {j2} "
+                              f"(not discretisation error: the difference does not shrink at half the spacing)",
                               {"class": c["cls"], "seed": c["seed"]})
 
 
